@@ -152,6 +152,22 @@ def nullable(items):
     return True
 
 
+def single_class_search(pattern, flags=0):
+    """search for ONE character out of a small explicit class ([\\r\\n\\0]) -> the list of code points; else None"""
+    is_b = isinstance(pattern, bytes)
+    p0 = sre_parse.parse(pattern.decode('latin-1') if is_b else pattern, flags)
+    items0 = list(p0)
+    if len(items0) != 1 or (flags & re.IGNORECASE) or (p0.state.flags & re.IGNORECASE): return None
+    op, av = items0[0]
+    if str(op) == 'LITERAL': return [av]
+    if str(op) != 'IN': return None
+    chars = []
+    for o, a in av:
+        if str(o) != 'LITERAL': return None
+        chars.append(a)
+    return chars if 0 < len(chars) <= 8 else None
+
+
 def matches(kind, pattern, subject, flags=0):
     """z3 Bool: re.<kind>(pattern, subject) is not None"""
     is_b = isinstance(pattern, bytes)
